@@ -18,7 +18,8 @@ LEVEL_TEXT = ("Decides that the PUSH0 switch is written in exactly one place, be
               "every path, is always read through the module attribute, that no code can produce the PUSH0 spelling "
               "except under a test of that switch, that both internal spellings of a zero push are priced identically "
               "(size and gas, in the block accounting and in the specification records), and that a contract that "
-              "was not selected is appended untouched.")
+              "was not selected is appended untouched."
+              ' Added in seeding round 9: a block costs the same in the parsed and the rebuilt spelling of its zero pushes, warm/cold accesses included (C17.e, AsmBlock.gas_spent evaluated).')
 EXPLANATION = ("Enumerates every string literal 'PUSH0' (and id prefix 'PUSH0_') in the analysed modules and classifies "
                "it as table entry, comparison/lookup, or production; each production must be control-dependent on "
                "constants.push0_enabled / is_push0(...) / an equality test with an existing PUSH0. The literal prices "
